@@ -115,6 +115,9 @@ func (d *drv) scenario(in c02.Input) *c02.Scen {
 		e.Proof(s, 0, v.Parts, "member")
 		e.EntryStep(s, 0, v.Parts)
 		e.PathKeyStep(s, 0, v.Parts)
+		if len(v.Parts) <= 5 {
+			e.BuildChecks(s, v.Parts)
+		}
 		if !in.Cfg {
 			continue
 		}
@@ -219,6 +222,31 @@ func (d *drv) scenario(in c02.Input) *c02.Scen {
 		if (kerr == nil) != (err0 == nil) || (kerr == nil && k.Cmp(k0) != 0) {
 			d.rep.Fail("c16-resolved-path-hasher", fmt.Sprintf("the path %v returned by %s(%q) does not hash with the merklizer's hasher", p.Parts(), pr.name, pr.arg), fin)
 			continue
+		}
+		// the path completed by the caller with Prepend / Append (copies mutated independently)
+		if kerr == nil {
+			orig := append([]any{}, p.Parts()...)
+			q1, q2 := p, p
+			_ = q1.Prepend("urn:subject:1", 2)
+			_ = q2.Prepend("urn:subject:2")
+			_ = q2.Append(docgen.Vocab+"tail", 0)
+			w1 := append([]any{"urn:subject:1", 2}, orig...)
+			w2 := append(append([]any{"urn:subject:2"}, orig...), docgen.Vocab+"tail", 0)
+			for qi, q := range []merklize.Path{q1, q2} {
+				want := [][]any{w1, w2}[qi]
+				qk, qerr := q.MtEntry()
+				wk, werr := indepKey(raw, want)
+				switch {
+				case fmt.Sprintf("%#v", q.Parts()) != fmt.Sprintf("%#v", want):
+					d.rep.Fail("c16-path-build-order", fmt.Sprintf("%s(%q) then Prepend/Append on a copy: parts %v, expected %v", pr.name, pr.arg, q.Parts(), want), fin)
+				case qerr != nil || werr != nil || qk.Cmp(wk) != 0:
+					d.rep.Fail("c16-path-build-key", fmt.Sprintf("%s(%q) extended with Prepend/Append no longer hashes with the configured hasher", pr.name, pr.arg), fin)
+				}
+			}
+			if fmt.Sprintf("%#v", p.Parts()) != fmt.Sprintf("%#v", orig) {
+				d.rep.Fail("c16-path-aliasing", fmt.Sprintf("%s(%q): mutating copies changed the original path %v -> %v", pr.name, pr.arg, orig, p.Parts()), fin)
+			}
+			e.PathObjKeyStep(s, pr.pk, q1)
 		}
 		if v, isEntry := byParts[fmt.Sprintf("%#v", p.Parts())]; isEntry && kerr == nil {
 			d.rep.Count("path-api-member:" + pr.name)
